@@ -200,6 +200,9 @@ def gen_cases(tier, seed):
             cases.append(dict(kind="special", what="big-norm-eps", m=m, n=n, idx=blk))
     for k in range(4):
         cases.append(dict(kind="special", what="wide-zero-columns", k=k))
+    cases.append(dict(kind="special", what="square-to-wide"))
+    for k in range(4):
+        cases.append(dict(kind="special", what="backward-layout", k=k, seed=seed))
     for k in range(3):
         cases.append(dict(kind="special", what="native-seed", k=k))
     for k in range(2):
@@ -606,6 +609,77 @@ def run_special(case, ctx):
                                     f"old coordinates {y[:6].tolist()} vs {x.tolist()}, new coordinates max |.|={float(np.abs(y[6:]).max()):.3g}")
             ctx.nontrivial += 1
             ctx.outcomes.add(f"wzc:{name}:" + digest(np.round(x, 6).tolist()))
+    elif what == "backward-layout":
+        # "how parameters are laid out in the Jacobian never changes the update": the last clause at the level of torchjd.backward.
+        # Every 1-op program over leaves of shapes (2,2), (2,), (1,) is differentiated with the 2-d leaf stored row-major and
+        # column-major (dense, non-contiguous), and with the inputs listed in both orders, under a non-linear aggregator: every
+        # parameter must receive the same update (added after a seeded change that re-strided the aggregated gradient to the
+        # memory layout of its parameter)
+        from torchjd import backward
+
+        from mc import programs as P
+
+        shapes = P.SHAPE_SCENARIOS["S2"]
+        progs = list(P.enum_program_outputs(shapes, (1, 1, 1), 1, max_outputs=2, both_orders=False))
+        lv = P.leaf_values(shapes, case.get("seed", 0))
+        for prog, outs in progs[case["k"]::4]:
+            t = P.Typed(prog)
+            m = sum(t.numel(o) for o in outs)
+            if m < 2:
+                continue
+            res = {}
+            for lay in ("c", "f"):
+                for rev in (False, True):
+                    vals = P.build_torch(prog, lv, "float64", layout=lay)
+                    leaves = [vals[i] for i in range(t.nleaves) if t.req[i]]
+                    ctx.execs += 1
+                    try:
+                        backward([vals[o] for o in outs], T.UPGrad(), inputs=leaves[::-1] if rev else leaves)
+                    except Exception as e:
+                        ctx.viol.append(dict(sig=f"exception:special:backward-layout:{type(e).__name__}", msg=f"{P.prog_str(prog, outs)} layout={lay} reversed={rev}: {e!r}"[:400]))
+                        continue
+                    res[(lay, rev)] = [None if x.grad is None else x.grad.detach().numpy().copy() for x in leaves]
+            if ("c", False) not in res:
+                continue
+            base = res[("c", False)]
+            for key_, g in res.items():
+                for i, (x, y) in enumerate(zip(base, g)):
+                    if (x is None) != (y is None):
+                        ctx.viol.append(dict(sig="layout:backward:grad-presence", msg=f"{P.prog_str(prog, outs)} {key_}"))
+                        continue
+                    if x is None or not x.size:
+                        continue
+                    sc = max(1.0, float(np.abs(x).max()))
+                    ctx.compare("special:backward-layout", float(np.abs(x - y).max()), 1e-10 * sc, "layout:backward:UPGrad",
+                                lambda: f"backward({P.prog_str(prog, outs)}, UPGrad()) leaf {i}: row-major/listed order {x.tolist()} vs layout={key_[0]} reversed={key_[1]} {y.tolist()}")
+            ctx.nontrivial += 1
+            ctx.outcomes.add("bl:" + digest([None if x is None else np.round(x, 6).tolist() for x in base]))
+    elif what == "square-to-wide":
+        # a square matrix of unambiguous rank (sigma_min 3..7 orders of magnitude above the cut-off of pinv) becomes wide when one or
+        # five all-zero columns are appended: the old coordinates must not change beyond the conditioning of the matrix itself
+        # (added after a seeded change: pinv through the Gramian - squared conditioning - for wide matrices only)
+        U = _givens(3, 0, 1, 0.7) @ _givens(3, 1, 2, 1.1) @ _givens(3, 0, 2, 0.4)
+        V = _givens(3, 0, 1, 0.3) @ _givens(3, 1, 2, 2.0) @ _givens(3, 0, 2, 1.3)
+        for dtype, eps, sigmas in ((torch.float64, 2.3e-16, (1e-2, 1e-4, 1e-6, 1e-8, 1e-9)), (torch.float32, 1.2e-7, (1e-2, 1e-3, 2e-4))):
+            for sg in sigmas:
+                J = U @ np.diag([1.0, 0.5, sg]) @ V.T
+                for name, agg, well in (("ConFIG", T.ConFIG(), False), ("ConFIG|p", T.ConFIG(pref_vector=torch.tensor([1.0, 2.0, 3.0], dtype=dtype)), False),
+                                        ("UPGrad", T.UPGrad(), True), ("DualProj", T.DualProj(), True), ("AlignedMTL", T.AlignedMTL(), True)):
+                    x = call(agg, J, dtype)
+                    if x is None:
+                        continue
+                    xs = max(float(np.abs(x).max()), 1e-300)
+                    tol = (16 * eps / sg if not well else 256 * eps) * xs
+                    for extra in (1, 5):
+                        y = call(agg, np.hstack([J, np.zeros((3, extra))]), dtype)
+                        if y is None:
+                            continue
+                        err = max(float(np.abs(y[:3] - x).max()), float(np.abs(y[3:]).max()))
+                        ctx.compare(f"special:square-to-wide:{name}", err, tol, f"zero-column:{name}:square-to-wide",
+                                    lambda: f"{name} {str(dtype)[6:]} on a 3x3 matrix with singular values (1, 0.5, {sg}) and {extra} zero column(s) appended: "
+                                            f"old coordinates {y[:3].tolist()} vs {x.tolist()} (err {err:.3g}, allowed {tol:.3g}), new coordinates {y[3:].tolist()}")
+                    ctx.nontrivial += 1
+                    ctx.outcomes.add(f"s2w:{name}:{sg}:" + digest(np.round(x / xs, 5).tolist()))
     elif what == "native-seed":
         # the SAME instance of a randomised aggregator, torch.manual_seed before every call (no replayed draws): a second call must
         # behave like the first, and the draws must not depend on the column layout
